@@ -178,8 +178,13 @@ func (a *AuthRequest) GetResponseType() oidc.ResponseType    { return a.RType }
 func (a *AuthRequest) GetResponseMode() oidc.ResponseMode    { return a.RMode }
 func (a *AuthRequest) GetScopes() []string                   { return a.Scopes }
 func (a *AuthRequest) GetState() string                      { return a.State }
-func (a *AuthRequest) GetSubject() string                    { return a.Subject }
-func (a *AuthRequest) Done() bool                            { return a.IsDone }
+func (a *AuthRequest) GetSubject() string {
+	if a.Subject == "" {
+		return a.HintSubject // pre-filled from the id_token_hint (userID of CreateAuthRequest), as in example/server/storage
+	}
+	return a.Subject
+}
+func (a *AuthRequest) Done() bool { return a.IsDone }
 
 func amr(done bool) []string {
 	if done {
@@ -222,16 +227,22 @@ type Refresh struct {
 
 type refreshReq struct {
 	*Refresh
-	cur []string
+	cur  []string
+	live bool
 }
 
-func (r *refreshReq) GetAMR() []string            { return r.AMR }
-func (r *refreshReq) GetAudience() []string       { return r.Audience }
-func (r *refreshReq) GetAuthTime() time.Time      { return r.AuthTime }
-func (r *refreshReq) GetClientID() string         { return r.Client }
-func (r *refreshReq) GetScopes() []string         { return r.cur }
-func (r *refreshReq) GetSubject() string          { return r.Subject }
-func (r *refreshReq) SetCurrentScopes(s []string) { r.cur = s }
+func (r *refreshReq) GetAMR() []string       { return r.AMR }
+func (r *refreshReq) GetAudience() []string  { return r.Audience }
+func (r *refreshReq) GetAuthTime() time.Time { return r.AuthTime }
+func (r *refreshReq) GetClientID() string    { return r.Client }
+func (r *refreshReq) GetScopes() []string    { return r.cur }
+func (r *refreshReq) GetSubject() string     { return r.Subject }
+func (r *refreshReq) SetCurrentScopes(s []string) {
+	r.cur = s
+	if r.live {
+		r.Refresh.Scopes = s
+	}
+}
 
 type Device struct {
 	Code     string
@@ -267,11 +278,14 @@ func (k *SignKey) SignatureAlgorithm() jose.SignatureAlgorithm { return k.Alg }
 func (k *SignKey) Key() any                                    { return k.Priv }
 func (k *SignKey) ID() string                                  { return k.KID }
 
-type pubKey struct{ k *SignKey }
+type pubKey struct {
+	k   *SignKey
+	use string
+}
 
 func (p *pubKey) ID() string                         { return p.k.KID }
 func (p *pubKey) Algorithm() jose.SignatureAlgorithm { return p.k.Alg }
-func (p *pubKey) Use() string                        { return "sig" }
+func (p *pubKey) Use() string                        { return p.use }
 func (p *pubKey) Key() any                           { return p.k.Pub }
 
 var (
@@ -348,6 +362,8 @@ type Store struct {
 	NotFoundAsOIDC   bool // an unknown client is reported as *oidc.Error (invalid_client) instead of a plain error
 
 	PromptNoneLoginRequired bool
+	KeyUseAbsent            bool // the published keys carry no "use" member
+	LiveRefresh             bool // RefreshTokenRequest is a live view of the stored grant: SetCurrentScopes writes through (as in example/server/storage)
 	// refusals: auth request id -> the error the storage answers when asked to issue (code or tokens) for that request
 	refusals map[string]error
 	Health_  error
@@ -510,6 +526,9 @@ func (s *Store) wrap(a *AuthRequest) op.AuthRequest {
 
 func (s *Store) AuthRequestByID(ctx context.Context, id string) (op.AuthRequest, error) {
 	if err := s.enter(ctx, "AuthRequestByID", id); err != nil {
+		if s.typedNil() {
+			return (*AuthRequest)(nil), err
+		}
 		return nil, err
 	}
 	s.mu.Lock()
@@ -521,8 +540,18 @@ func (s *Store) AuthRequestByID(ctx context.Context, id string) (op.AuthRequest,
 	return s.wrap(a), nil
 }
 
+// typedNil: the fault plan's kind "typednil" makes look-ups answer `return obj, err` with a nil pointer inside the interface
+func (s *Store) typedNil() bool {
+	s.mu.Lock()
+	defer s.mu.Unlock()
+	return s.FailKind == "typednil"
+}
+
 func (s *Store) AuthRequestByCode(ctx context.Context, code string) (op.AuthRequest, error) {
 	if err := s.enter(ctx, "AuthRequestByCode"); err != nil {
+		if s.typedNil() {
+			return (*AuthRequest)(nil), err
+		}
 		return nil, err
 	}
 	s.mu.Lock()
@@ -657,6 +686,9 @@ func (s *Store) RefreshName(raw string) string {
 
 func (s *Store) TokenRequestByRefreshToken(ctx context.Context, id string) (op.RefreshTokenRequest, error) {
 	if err := s.enter(ctx, "TokenRequestByRefreshToken", id); err != nil {
+		if s.typedNil() {
+			return (*refreshReq)(nil), err
+		}
 		return nil, err
 	}
 	s.mu.Lock()
@@ -664,6 +696,9 @@ func (s *Store) TokenRequestByRefreshToken(ctx context.Context, id string) (op.R
 	r, ok := s.Refresh[id]
 	if !ok || !r.Live {
 		return nil, notFound{"refresh token"}
+	}
+	if s.LiveRefresh {
+		return &refreshReq{Refresh: r, cur: r.Scopes, live: true}, nil
 	}
 	return &refreshReq{Refresh: r, cur: slices.Clone(r.Scopes)}, nil
 }
@@ -746,9 +781,13 @@ func (s *Store) KeySet(ctx context.Context) ([]op.Key, error) {
 	if err := s.enter(ctx, "KeySet"); err != nil {
 		return nil, err
 	}
-	ks := []op.Key{&pubKey{s.Signing}}
+	use := "sig"
+	if s.KeyUseAbsent {
+		use = "" // "use" is an optional JWK member
+	}
+	ks := []op.Key{&pubKey{s.Signing, use}}
 	for _, k := range s.Retired {
-		ks = append(ks, &pubKey{k})
+		ks = append(ks, &pubKey{k, use})
 	}
 	return ks, nil
 }
@@ -757,6 +796,9 @@ func (s *Store) KeySet(ctx context.Context) ([]op.Key, error) {
 
 func (s *Store) GetClientByClientID(ctx context.Context, id string) (op.Client, error) {
 	if err := s.enter(ctx, "GetClientByClientID", id); err != nil {
+		if s.typedNil() {
+			return (*client)(nil), err
+		}
 		return nil, err
 	}
 	s.mu.Lock()
